@@ -63,6 +63,19 @@ fn add_probes(g: &mut GraphSpec, assign_via_forward: bool, rng: &mut Rng) {
                 }
             }
         }
+        // configuration: on a first load it configures, on a later load of the same module it must
+        // not execute the module again (rsass ignores it there; an error would leave the run unjudged)
+        for s in g.files[i].stmts.iter_mut() {
+            match s {
+                Stmt::Load { kind: LoadKind::Use, ns, with_cfg, .. } if ns.is_empty() => {
+                    *with_cfg = rng.chance(1, 2);
+                }
+                Stmt::Load { kind: LoadKind::Forward, with_cfg, .. } => {
+                    *with_cfg = rng.chance(1, 6);
+                }
+                _ => {}
+            }
+        }
         let uses: Vec<(String, usize)> = g.files[i]
             .stmts
             .iter()
